@@ -36,6 +36,7 @@ pub const MULTIPLE_START_RULES: &str = "E031";
 pub const ELISION_IN_START_RULE: &str = "E032";
 pub const REDEFINE_AS_PART: &str = "E033";
 pub const START_AS_PART: &str = "E034";
+pub const CREATE_NODE_IN_ORDERED_CHOICE: &str = "E035";
 
 pub const UNUSED_RULE: &str = "W001";
 pub const UNUSED_TOKEN: &str = "W002";
@@ -87,6 +88,7 @@ pub trait LanguageErrors {
     fn elision_in_start_rule(span: &Span) -> Self;
     fn redefine_as_part(span: &Span) -> Self;
     fn start_as_part(span: &Span) -> Self;
+    fn create_node_in_ordered_choice(span: &Span) -> Self;
 }
 
 impl LanguageErrors for Diagnostic {
@@ -435,5 +437,16 @@ impl LanguageErrors for Diagnostic {
             .with_code(START_AS_PART)
             .with_message("start rule cannot be defined as part")
             .with_label(Label::primary((), span.clone()))
+    }
+
+    fn create_node_in_ordered_choice(span: &Span) -> Self {
+        Diagnostic::error()
+            .with_code(CREATE_NODE_IN_ORDERED_CHOICE)
+            .with_message("node creation uses a node marker from outside of the ordered choice")
+            .with_label(Label::primary((), span.clone()))
+            .with_note(
+                "note: the inserted node cannot be removed when the alternative is abandoned, \
+                 use a node marker inside of the alternative or commit before the node creation",
+            )
     }
 }
